@@ -134,11 +134,15 @@ theorem passConstraints_nil (p : Program) :
       fun c hc => (h c hc).2.2.2.2.2⟩
 
 theorem gateErrs_nil (m : Module) :
-    gateErrs m = [] ↔ ∀ t ∈ m.gated, Emboss.Bounds.gate t = some [] := by
+    (gateErrs false m = [] ∧ gateErrs true m = []) ↔
+      ∀ g ∈ m.gated, Emboss.Bounds.gate g.2 = some [] := by
   simp only [gateErrs, List.flatMap_eq_nil_iff]
-  refine forall_congr' fun t => forall_congr' fun _ => ?_
-  cases Emboss.Bounds.gate t with
-  | none => simp
-  | some es => simp
+  constructor
+  · rintro ⟨h1, h2⟩ g hg
+    have a := h1 g hg
+    have b := h2 g hg
+    cases hs : g.1 <;> cases hgt : Emboss.Bounds.gate g.2 <;> simp_all
+  · intro h
+    constructor <;> intro g hg <;> (have := h g hg; split <;> simp_all)
 
 end Emboss.Constraints
